@@ -37,6 +37,16 @@ CHECKS = {
             "Reference evaluator is IEEE f64 in Python (math.fmod, math.pow), relative tolerance 1e-12; division by "
             "zero, |v| > 2^50 and `-(...)` are outside the generated domain.",
             "DESIGN.md 4 C15"),
+    "C02": ("exploration",
+            "property-based testing (Hypothesis): generated attribute-rich trees x atomic conditions, differential "
+            "against a reference predicate evaluated on lstat-observed attributes",
+            "For every generated tree and 12 generated atoms (numeric incl. unit literals, text with =/glob/like/"
+            "strict/regex, boolean incl. bare form, date intervals, BETWEEN, column-vs-column, quoted reserved words) "
+            "the set of returned paths must equal the set of entries for which the documented meaning holds - both "
+            "over- and under-selection are reported with the (type, column, operator) in the signature.",
+            "Python's os.lstat/re and the small glob/date references are trusted; TZ=UTC; undocumented combinations "
+            "(ordering on text/bool, negative or unit-less fractional literals) are not generated.",
+            "DESIGN.md 4 C02"),
 }
 
 PENDING = {}
